@@ -5,5 +5,5 @@ From Verif Require Import Builder.BuilderModel.
 Extraction Blacklist List String Int.
 Extraction "builder.ml"
   BuilderModel.init_state BuilderModel.step BuilderModel.replay BuilderModel.trace BuilderModel.lookup
-  BuilderModel.final_type_size BuilderModel.kInvalidArgument BuilderModel.kInvalidLabel BuilderModel.kInvalidSection BuilderModel.kLabelAlreadyBound
+  BuilderModel.final_type_size BuilderModel.kInvalidArgument BuilderModel.kInvalidLabel BuilderModel.kInvalidSection BuilderModel.kLabelAlreadyBound BuilderModel.kInvalidOperandSize BuilderModel.kInvalidState BuilderModel.kSentinelFuncEnd
   BuilderModel.kOptReserved BuilderModel.kAlignData BuilderModel.kBaseOpCapacity BuilderModel.kFullOpCapacity BuilderModel.kTypeUInt8.
